@@ -132,6 +132,33 @@ pub fn panic_inventory(cf: &CrateFacts, file_filter: &dyn Fn(&str) -> bool) -> B
     inv
 }
 
+/// (function, kind) -> source lines of the sites
+pub fn panic_sites(cf: &CrateFacts, file_filter: &dyn Fn(&str) -> bool) -> BTreeMap<(String, String), Vec<(String, usize)>> {
+    let mut inv: BTreeMap<(String, String), Vec<(String, usize)>> = BTreeMap::new();
+    for c in &cf.calls {
+        if is_lalrpop_internal(&c.caller, &c.file) || !file_filter(&c.file) {
+            continue;
+        }
+        if let Some(k) = panic_kind(&c.callee) {
+            inv.entry((c.caller.clone(), k)).or_default().push((c.file.clone(), c.line));
+        }
+    }
+    for a in &cf.asserts {
+        if a.kind == "MisalignedPointerDereference" || a.kind == "NullPointerDereference" {
+            continue;
+        }
+        if is_lalrpop_internal(&a.func, &a.file) || !file_filter(&a.file) {
+            continue;
+        }
+        inv.entry((a.func.clone(), format!("assert:{}", a.kind))).or_default().push((a.file.clone(), a.line));
+    }
+    inv
+}
+
+/// Discharges that do not depend on which function a site sits in (so that moving code into a helper does not
+/// create an "unreviewed" site): (function, kind, file, line) -> reason.
+pub type AutoDischarge<'a> = &'a dyn Fn(&str, &str, &str, usize) -> Option<String>;
+
 pub struct SiteRow {
     pub func: &'static str,
     pub kind: &'static str,
@@ -142,12 +169,25 @@ pub struct SiteRow {
 
 /// Compare an inventory with a reviewed table. Action bodies (`python::__actionN`) are summed per kind.
 pub fn check_inventory(cx: &mut Ctx, rule: &str, inv: &BTreeMap<(String, String), usize>, table: &[SiteRow], rel: &str) {
+    check_inventory_auto(cx, rule, inv, table, rel, &BTreeMap::new(), &|_, _, _, _| None)
+}
+
+pub fn check_inventory_auto(cx: &mut Ctx, rule: &str, inv: &BTreeMap<(String, String), usize>, table: &[SiteRow], rel: &str, sites: &BTreeMap<(String, String), Vec<(String, usize)>>, auto: AutoDischarge) {
     let mut actions: BTreeMap<String, usize> = BTreeMap::new();
     let mut seen_rows = BTreeSet::new();
     for ((func, kind), n) in inv {
         if func.starts_with("python::__action") {
             *actions.entry(kind.clone()).or_insert(0) += n;
             continue;
+        }
+        // site-independent discharges first: all sites of this (function, kind) covered by a global rule
+        if let Some(ss) = sites.get(&(func.clone(), kind.clone())) {
+            let reasons: Vec<Option<String>> = ss.iter().map(|(f, l)| auto(func, kind, f, *l)).collect();
+            let in_table = table.iter().any(|r| r.func == func && r.kind == kind && *n <= r.max);
+            if !in_table && !reasons.is_empty() && reasons.iter().all(|r| r.is_some()) {
+                cx.ok(rule, &format!("{}: {} x{} -- {}", func, kind, n, reasons[0].clone().unwrap_or_default()));
+                continue;
+            }
         }
         match table.iter().enumerate().find(|(_, r)| r.func == func && r.kind == kind) {
             Some((i, r)) => {
@@ -273,7 +313,41 @@ fn parser_inventory(cx: &mut Ctx, facts: &Facts) {
     let inv = panic_inventory(cf, &|_| true);
     let total: usize = inv.values().sum();
     cx.unit("panic-capable sites in rustpython_parser (outside LALRPOP internals)", total);
-    check_inventory(cx, rule, &inv, PARSER_SITES, "parser/src");
+    let sites = panic_sites(cf, &|_| true);
+    let lexer_src = sm::load(&cx.repo, "parser/src/lexer.rs").ok();
+    let lexer_lines: Vec<String> = lexer_src.as_ref().map(|s| s.text.lines().map(|l| l.to_string()).collect()).unwrap_or_default();
+    // functions of lexer.rs whose every `next_char().unwrap()` is dominated by a Some-test (D.some, structural)
+    let mut dominated: BTreeSet<String> = BTreeSet::new();
+    if let Some(lx) = &lexer_src {
+        for (f, _) in crate::rules::lexer_rules::lexer_methods(lx) {
+            let (ok, bad) = check_some_dominance(&f.block, &f.sig.ident.to_string());
+            if ok > 0 && bad.is_empty() {
+                dominated.insert(f.sig.ident.to_string());
+            }
+        }
+    }
+    let auto = |func: &str, kind: &str, file: &str, line: usize| -> Option<String> {
+        if !(func.starts_with("lexer::Lexer") && file.ends_with("parser/src/lexer.rs")) {
+            return None;
+        }
+        let text: String = lexer_lines.get(line.saturating_sub(1)).map(|l| l.chars().filter(|c| !c.is_whitespace()).collect()).unwrap_or_default();
+        match kind {
+            "CharWindow::index" => Some("D.idx: every index into the character window in lexer.rs is a constant slot (C03.D.const)".into()),
+            "TextSize::add" => Some("D.space: position advance inside the 32-bit offset space of the property's quantifier".into()),
+            "assert:Overflow" if text.contains("self.nesting-=1") => Some("D.guard: the decrement is reached only on the path where nesting == 0 returned Err (C04.L1, interpreted)".into()),
+            "assert:Overflow" if text.contains("+=1") => Some("D.counter: a counter incremented at most once per consumed character (input < 2^32 bytes)".into()),
+            "Option::unwrap" => {
+                let short = func.rsplit("::").next().unwrap_or("").to_string();
+                if text.contains("self.next_char().unwrap()") && dominated.contains(&short) {
+                    Some("D.some: next_char().unwrap() dominated by a Some-test in this function (C03.D.some)".into())
+                } else {
+                    None
+                }
+            }
+            _ => None,
+        }
+    };
+    check_inventory_auto(cx, rule, &inv, PARSER_SITES, "parser/src", &sites, &auto);
     for r in PARSER_SITES {
         if r.discharge.starts_with("D.space") || r.discharge.starts_with("D.counter") {
             cx.assume(&format!("{} / {}: {} ({})", r.func, r.kind, r.why, r.discharge));
@@ -291,9 +365,11 @@ fn recursion_inventory(cx: &mut Ctx, facts: &Facts) {
     let mut seen_big = false;
     for scc in &sccs {
         let user: Vec<&String> = scc.iter().filter(|n| !n.starts_with("python::") && !n.starts_with("<python::")).collect();
-        if scc.iter().all(|n| n == "context::set_context" || n.starts_with("context::set_context::{closure")) {
+        if scc.iter().any(|n| n == "context::set_context") && scc.iter().all(|n| n.starts_with("context::")) {
+            // set_context and private helpers of context.rs that map it over owned children (C01.X1c checks that
+            // the recursion is element-wise over the node's own elements)
             seen_ctx = true;
-            cx.ok(rule, "SCC {set_context}: structural recursion over Tuple/List/Starred elements");
+            cx.ok(rule, &format!("SCC {:?}: structural recursion over Tuple/List/Starred elements", scc));
             continue;
         }
         if scc.iter().any(|n| n == "string::parse_fstring_expr") {
@@ -736,8 +812,8 @@ fn discharge_some(cx: &mut Ctx) {
                 }
             }
             // D.prefix: lex_string call sites
-            let prefix_ok = t.contains("[Some(c),Some('\"'|'\\''),..]=>{matchStringKind::try_from(c){Ok(kind)=>{returnself.lex_string(kind);},_=>{},}}")
-                && t.contains("[Some(c1),Some(c2),Some('\"'|'\\'')]=>{matchStringKind::try_from([c1,c2]){Ok(kind)=>{returnself.lex_string(kind);},_=>{},}}")
+            let prefix_ok = t.contains("[Some(c),Some('\"'|'\\''),..]=>matchStringKind::try_from(c){Ok(kind)=>{returnself.lex_string(kind);},_=>{},},")
+                && t.contains("[Some(c1),Some(c2),Some('\"'|'\\'')]=>matchStringKind::try_from([c1,c2]){Ok(kind)=>{returnself.lex_string(kind);},_=>{},},")
                 && t.contains("'\"'|'\\''=>{letstring=self.lex_string(StringKind::String)?;")
                 && t.matches("self.lex_string(").count() == 3;
             if prefix_ok {
@@ -754,7 +830,10 @@ fn discharge_some(cx: &mut Ctx) {
                         if scrut == "self.window[0]" {
                             for b in &brs {
                                 if let crate::rules::lexer_rules::CPat::AnySome(Some(name)) = &b.pat {
-                                    let body: String = b.body.iter().map(|s| sm::tsc(*s)).collect();
+                                    let mut body: String = b.body.iter().map(|s| sm::tsc(*s)).collect();
+                                    if let Some(tl) = b.tail {
+                                        body.push_str(&sm::tsc(tl));
+                                    }
                                     if body.contains(&format!("self.consume_character({})", name)) {
                                         cc_ok = true;
                                     }
@@ -856,7 +935,7 @@ fn discharge_constants(cx: &mut Ctx) {
         } else {
             cx.fail(rule, &format!("{}/expected-index", rule), &p.rel, "expected[0] is not guarded by expected.len() == 1");
         }
-        if t.contains("letstatement=matchstatements.len(){0=>{") && t.contains("1=>statements.pop().unwrap(),_=>{returnErr(ParseError{error:ParseErrorType::InvalidToken,offset:statements[1].range().start(),") {
+        if t.contains("letstatement=matchstatements.len(){0=>") && t.contains("1=>statements.pop().unwrap(),_=>returnErr(ParseError{error:ParseErrorType::InvalidToken,offset:statements[1].range().start(),") {
             cx.ok(rule, "D.lenmatch: pop().unwrap() in the arm len == 1, statements[1] in the arm len >= 2");
         } else {
             cx.fail(rule, &format!("{}/stmt-len", rule), &p.rel, "Stmt::parse_tokens indexes/pops outside the arm that fixes the length");
@@ -1203,11 +1282,38 @@ fn fn_summaries(cx: &mut Ctx) {
     let rule = "C03.P3";
     cx.rule(rule, "consumer summaries: the functions the loop rule P1 credits as consuming (consume_normal, consume_character, lex_*, parse_* …) are themselves checked — every path through the body to a normal return passes a call that consumes a character (next_char, another summarised consumer) or, for consume_normal/consume_character, emits a token (which ends `while pending.is_empty()`); `return Err` / `Err(..)?` paths end the token stream; nested `while`/`for` loops are credited with zero iterations");
     cx.floor(rule, 12);
+    // private helpers that consume on every normal-return path (least fixpoint): a call to one of them is progress
+    let mut derived: Vec<String> = vec![];
+    if let Ok(lx) = sm::load(&cx.repo, "parser/src/lexer.rs") {
+        let methods = crate::rules::lexer_rules::lexer_methods(&lx);
+        loop {
+            let mut changed = false;
+            for (f, _) in &methods {
+                let name = f.sig.ident.to_string();
+                if CONSUMERS.contains(&name.as_str()) || CONDITIONAL.iter().any(|c| c.0 == name) || derived.contains(&name) || SUMMARISED.iter().any(|s| s.1 == name) || f.sig.inputs.is_empty() {
+                    continue;
+                }
+                let extra: Vec<&str> = derived.iter().map(|s| s.as_str()).collect();
+                let paths = fn_paths(&f.block, &extra);
+                if !paths.is_empty() && paths.iter().all(|p| p.0) {
+                    derived.push(name);
+                    changed = true;
+                }
+            }
+            if !changed {
+                break;
+            }
+        }
+        // only genuine helpers: getters without any consuming call have no path with progress and are never added
+    }
     for (rel, name, extra) in SUMMARISED {
         let Ok(src) = sm::load(&cx.repo, rel) else {
             cx.anchor_missing(rule, rel);
             continue;
         };
+        let mut extra_all: Vec<&str> = extra.to_vec();
+        extra_all.extend(derived.iter().map(|s| s.as_str()));
+        let extra = &extra_all;
         let mut found = false;
         for i in src.impls() {
             for it in &i.items {
